@@ -62,7 +62,9 @@ def pick_functions(ctx, fns):
     if not ctx.quick or os.environ.get("VERIF_ALL_FUNCS"):
         return fns
     k = max(20, (len(fns) + 2) // 3)
-    return sorted(ctx.rng.sample(fns, min(k, len(fns))))
+    # persistent objects (follow-up probes) and the multi-block blob-growing drivers are part of every quick run
+    always = [f for f in ("rngCreate", "bakeBSTSRunA", "bakeBSTSRunB") if f in fns]
+    return sorted(set(ctx.rng.sample(fns, min(k, len(fns)))) | set(always))
 
 
 def make_commands(ctx, cases, fns, faults_on_valid_sweeps):
